@@ -469,7 +469,42 @@ class _Canon(ast.NodeTransformer):
         self._props = {f.name for f in ast.walk(n) if isinstance(f, ast.FunctionDef)
                        and any((isinstance(d, ast.Name) and d.id in ("property", "cached_property")) or (isinstance(d, ast.Attribute) and d.attr in ("setter", "cached_property"))
                                for d in f.decorator_list)}
+        self._methods = {f.name for c in ast.walk(n) if isinstance(c, ast.ClassDef) for f in c.body if isinstance(f, ast.FunctionDef)
+                         and not f.decorator_list} - self._props - self._stored_attrs
         return self.generic_visit(n)
+
+    def _method_aliases(self, fn: ast.FunctionDef) -> None:
+        """`f = self.m` (m a plain method of a class of this module, never stored to) ... `f(args)` is `self.m(args)`: a bound method
+        named for the length of the function."""
+        methods = self.__dict__.get("_methods", set())
+        for a in list(ast.walk(fn)):
+            if isinstance(a, ast.Assign) and len(a.targets) == 1 and isinstance(a.targets[0], ast.Name) and isinstance(a.value, ast.Attribute) \
+                    and isinstance(a.value.value, ast.Name) and a.value.value.id == "self" and a.value.attr in methods:
+                nm = a.targets[0].id
+                occ = [x for x in ast.walk(fn) if isinstance(x, ast.Name) and x.id == nm]
+                stores = [x for x in occ if isinstance(x.ctx, (ast.Store, ast.Del))]
+                if len(stores) != 1:
+                    continue
+                calls = [c for c in ast.walk(fn) if isinstance(c, ast.Call) and isinstance(c.func, ast.Name) and c.func.id == nm]
+                if len(calls) != len(occ) - 1 or any(c.lineno < a.lineno for c in calls):
+                    continue                     # used as a value somewhere, or before the binding
+                for c in calls:
+                    c.func = ast.copy_location(ast.Attribute(value=ast.copy_location(ast.Name(id="self", ctx=ast.Load()), c.func), attr=a.value.attr, ctx=ast.Load()), c.func)
+                a._drop = True
+
+        def prune(block):
+            block[:] = [st for st in block if not getattr(st, "_drop", False)] or [ast.Pass()]
+            for st in block:
+                for fld in ("body", "orelse", "finalbody"):
+                    b = getattr(st, fld, None)
+                    if isinstance(b, list) and b and isinstance(b[0], ast.stmt):
+                        prune(b)
+                if isinstance(st, ast.Try):
+                    for h in st.handlers:
+                        prune(h.body)
+        if any(getattr(x, "_drop", False) for x in ast.walk(fn)):
+            prune(fn.body)
+            ast.fix_missing_locations(fn)
 
     def visit_FunctionDef(self, n: ast.FunctionDef):
         stack = self.__dict__.setdefault("_fn_stack", [])
@@ -485,6 +520,7 @@ class _Canon(ast.NodeTransformer):
         self.__dict__.setdefault("_fn_nodes", []).append(n)
         try:
             n = self.generic_visit(n)
+            self._method_aliases(n)
             self._field_copies(n, counts)
             self._default_fills(n)
             self._flag_locals(n)
